@@ -185,3 +185,10 @@ def run(ctx):
     check_fetch(ctx, prog)
     check_vsize_ignored(ctx, prog)
     c06.check_geomsrc(ctx, prog)
+    from rules import r4decodeorder
+    ctx.rule("R4.decodeorder", "ncmpio_hdr_get_NC: no field of the header object the decoder derives is read (by it or the functions it "
+             "hands the object to, depth 3) before the write that derives it")
+    lprog = ctx.program(groups=["lib"])
+    dfn = ctx.need_fn(lprog, "ncmpio_hdr_get_NC")
+    ctx.functions_analysed.add((dfn.unit.name, dfn.name))
+    r4decodeorder.check(ctx, lprog, dfn, "R4.decodeorder", 15)
